@@ -176,6 +176,11 @@ def offenders(pid):
 SL = "theories/Properties/SourceLevel.v"
 SLW = "theories/Properties/SourceLevelWasm.v"
 SKW = "theories/Properties/SourceKernelWasmFull.v"
+SLN = "theories/Properties/SourceLevelNeon.v"
+SKN = "theories/Properties/SourceKernelNeonFull.v"
+SKN_ALL = ["SRCN_force_new", "SRCN_zipper_merge", "SRCN_update", "SRCN_permute_and_update", "SRCN_modular_reduction", "SRCN_wrapper",
+           "SRCN_from_identity", "SRCN_data_to_lanes", "SRCN_load_multiple_of_four", "SRCN_remainder", "SRCN_rotate_32_by",
+           "SRCN_update_remainder", "SRCN_finalize", "SRCN_append", "SRCN_checkpoint", "SRCN_force_from_checkpoint"]
 SKW_ALL = ["SRCW_new", "SRCW_zipper_merge", "SRCW_update", "SRCW_permute_and_update", "SRCW_modular_reduction", "SRCW_wrapper", "SRCW_helpers",
            "SRCW_le_u64", "SRCW_unordered_load3", "SRCW_data_to_lanes", "SRCW_load_multiple_of_four", "SRCW_remainder", "SRCW_rotate_32_by", "SRCW_packet",
            "SRCW_update_remainder", "SRCW_finalize", "SRCW_append", "SRCW_checkpoint", "SRCW_from_checkpoint"]
@@ -184,19 +189,24 @@ EXTRA_THEOREMS = {
     "C01": [(SL, ["SRC_source_is_highwayhash", "SRC_source_continue"])],
     # the whole of src/wasm.rs, translated from the current source, is the model Wasm.v; and the interpreted wasm.rs computes
     # HighwayHash / agrees with the interpreted portable.rs
+    # the whole of src/aarch64.rs likewise (Neon.v), raw-pointer loads included
+    "C03": [(SKN, SKN_ALL), (SLN, ["SRCN_source_is_highwayhash", "SRCN_source_agrees_with_portable_source", "SRCN_source_continue",
+                                   "SRCN_source_checkpoint_interchangeable", "SRCN_source_restore_total"])],
     "C04": [(SKW, SKW_ALL), (SLW, ["SRCW_source_is_highwayhash", "SRCW_source_agrees_with_portable_source", "SRCW_source_continue",
                                    "SRCW_source_checkpoint_interchangeable", "SRCW_source_restore_total"])],
     "C05": [(SL, ["SRC_source_streaming_invariance", "SRC_source_continue"]),
-            (SLW, ["SRCW_source_streaming_invariance"]),
+            (SLW, ["SRCW_source_streaming_invariance"]), (SLN, ["SRCN_source_streaming_invariance"]),
             ("theories/Properties/FactsC05.v", ["C05_provided_methods", "C05_append_text_shared"])],
     "C06": [(SL, ["SRC_source_checkpoint_transparent", "SRC_source_restore_total"]),
-            (SLW, ["SRCW_source_checkpoint_transparent", "SRCW_source_checkpoint_interchangeable"])],
+            (SLW, ["SRCW_source_checkpoint_transparent", "SRCW_source_checkpoint_interchangeable"]),
+            (SLN, ["SRCN_source_checkpoint_transparent", "SRCN_source_checkpoint_interchangeable"])],
     "C08": [(SL, ["SRC_source_is_highwayhash", "SRC_source_continue", "SRC_source_restore_total", "SRC_source_checkpoint_canonical"]),
-            (SLW, ["SRCW_source_is_highwayhash", "SRCW_source_continue"])],
-    "C11": [(SL, ["SRC_source_restore_total"]), (SLW, ["SRCW_source_restore_total"])],
+            (SLW, ["SRCW_source_is_highwayhash", "SRCW_source_continue"]), (SLN, ["SRCN_source_is_highwayhash", "SRCN_source_continue"])],
+    "C11": [(SL, ["SRC_source_restore_total"]), (SLW, ["SRCW_source_restore_total"]), (SLN, ["SRCN_source_restore_total"])],
     "C12": [("theories/Properties/FactsC05.v", ["C05_provided_methods"])],
     "C13": [("theories/Properties/FactsC05.v", ["C05_provided_methods"])],
-    "C14": [(SL, ["SRC_source_checkpoint_canonical"]), (SLW, ["SRCW_source_checkpoint_canonical", "SRCW_source_checkpoint_interchangeable"])],
+    "C14": [(SL, ["SRC_source_checkpoint_canonical"]), (SLW, ["SRCW_source_checkpoint_canonical", "SRCW_source_checkpoint_interchangeable"]),
+            (SLN, ["SRCN_source_checkpoint_canonical", "SRCN_source_checkpoint_interchangeable"])],
 }
 
 
